@@ -11,12 +11,16 @@ PCM = 'PortfolioConstructionModel'
 
 
 def check(ctx):
+    from ..lib import discarded_results
+    ctx.sub(discarded_results, 'C09.S4', ('qstrader/portcon/',), 'orders and asset sets are the collections the code actually sorted')
     ctx.sub(s1_asset_set, 'C09.S1')
     ctx.sub(s2_s3_call)
     ctx.sub(s4_order_diff)
     ctx.sub(s5_sizers)
     from . import c08
     ctx.sub(c08.execution)             # once those orders fill: every order returned is submitted, none filtered
+    from . import c04
+    ctx.sub(c04.s2_s3_update)          # ... and filled in the portfolio it was submitted for (the one whose holdings the target was computed against)
 
 
 # ------------------------------------------------------------------------------------------------ matchers
